@@ -29,11 +29,10 @@ JOBS = [
   Job("c17.lemma.mono", TU, "h_lemma_mono", solver="z3", fuc=[], timeout=100, mem_gb=2,
       note="x < y and s >= 0 imply x*s + s <= y*s over the mathematical integers (z3); machine products of operands below 2^31 do not overflow"),
 ]
-for k, strides in enumerate(("ids 8, funcs 0, args 1, results 8, attrs 0", "ids 24, funcs 16, args 40, results 32, attrs 48",
-                             "ids 4096, funcs 8, args 0, results 16, attrs 7")):
+for k, strides in enumerate(("ids 8, funcs 0, args 1, results 8, attrs 0", "ids 16, funcs 8, args 4, results 32, attrs 2")):
     for part, pn in ((1, "leaf"), (2, "split")):
         JOBS.append(aux_job("c17.aux.%s.s%d" % (pn, k), part, rewrites=HOOK, defines=["-DVMUL=0", "-DSAMPLE=%d" % k], kind="bounded",
-          note="bounded cross-check with the REAL multiplications of the text (no verif_mul): constant stride tuple (%s), any n < 2^31; "
+          note="bounded cross-check with the REAL multiplications of the text (no verif_mul): constant stride tuple (%s), n < 2^16; "
                "the axioms of the product table are assertions here" % strides))
 META = {
  "level": "proof",
